@@ -74,6 +74,37 @@ def guarded(f):
 # generators
 # ---------------------------------------------------------------------------
 BACKENDS = [('np', 'c128'), ('np', 'f64'), ('torch', 'c128'), ('torch', 'c64'), ('torch', 'f64'), ('torch', 'f32')]
+# ordered dtype histories: numqi.gellmann is re-loaded (importlib.reload = fresh module state, as in a fresh process) before each history and the
+# calls are then made in exactly this order for every d, so that anything cached by the first call (per dimension, per dtype) is exposed
+HISTORIES = [
+    [('torch', 'f32'), ('torch', 'c64'), ('np', 'c128'), ('torch', 'f64'), ('torch', 'c128'), ('np', 'f64')],      # float32 first, then float64
+    [('torch', 'f64'), ('torch', 'c128'), ('torch', 'f32'), ('np', 'f64'), ('torch', 'c64'), ('np', 'c128')],      # float64 first, then float32
+    [('torch', 'c64'), ('np', 'f64'), ('torch', 'c128'), ('torch', 'f32'), ('np', 'c128'), ('torch', 'f64')],      # complex64 first, interleaved with numpy
+    BACKENDS,                                                                                                            # numpy first
+]
+
+
+def fresh_gellmann():
+    import importlib, numqi
+    importlib.reload(numqi.gellmann)
+    return numqi.gellmann
+
+
+def near_mixed(rng, d, eps, shape=()):
+    """(1-eps) I/d + eps sigma for a random density matrix sigma (float64 entries, sent to the model exactly); eps = 0: I/d itself"""
+    n = int(np.prod(shape)) if shape else 1
+    out = []
+    for _ in range(n):
+        sig = rand_dm_exact(rng, d, ())
+        out.append((1 - eps) * np.eye(d) / d + eps * sig)
+    return np.array(out).reshape(tuple(shape) + (d, d))
+
+
+EPS_LIST = [0.0, 1e-3, 1e-6, 1e-7, 1e-9, 1e-12]
+# dm_norm_eq / distance2_eq are exact theorems; the implementation only rounds the trace and the subtraction dm - tr/d*1, each diagonal entry to
+# 2^-53*|rho_ii| <= 1.2e-17, so the norm carries an absolute error <= sqrt(d)*2e-17 < 1e-16 and a relative error of a few 2^-53
+NORM_RTOL, NORM_ATOL = 1e-9, 1e-16
+
 
 
 def convert(a, backend, dt):
@@ -125,17 +156,18 @@ def tol_for(dt, scale):
 class Tie:
     def __init__(self, ctx):
         self.ctx = ctx
-        self.ops, self.expect, self.tol, self.tag = [], [], [], []
+        self.ops, self.expect, self.tol, self.tag, self.rtol, self.post = [], [], [], [], [], []
 
-    def add(self, op, value, tol, tag):
-        """value: numpy array (flattened, complex) produced by the implementation, or an 'error:…' string"""
-        self.ops.append(op); self.expect.append(value); self.tol.append(tol); self.tag.append(tag)
+    def add(self, op, value, tol, tag, rtol=0.0, post=None):
+        """value: numpy array (flattened, complex) produced by the implementation, or an 'error:…' string;
+        accepted when |impl - post(model)| <= tol + rtol*|post(model)| entrywise"""
+        self.ops.append(op); self.expect.append(value); self.tol.append(tol); self.tag.append(tag); self.rtol.append(rtol); self.post.append(post)
 
     def run(self):
         ctx = self.ctx
         out = common.run_model(self.ops)
         worst = 0.0
-        for op, exp, tol, tag, line in zip(self.ops, self.expect, self.tol, self.tag, out):
+        for op, exp, tol, tag, line, rtol, post in zip(self.ops, self.expect, self.tol, self.tag, out, self.rtol, self.post):
             ctx.count(tag)
             if isinstance(exp, str):
                 ok = (exp == line)
@@ -144,13 +176,17 @@ class Tie:
                 ok = False; err = None
             else:
                 m = parse_qlist(line.replace('|', ';'))
+                if post is not None:
+                    m = post(m)
                 e = np.asarray(exp).reshape(-1).astype(complex)
                 if m.shape != e.shape:
                     ok = False; err = None
                 else:
+                    lim = tol + rtol * np.abs(m)
                     err = float(np.max(np.abs(m - e))) if m.size else 0.0
-                    ok = bool(np.isfinite(err) and err <= tol)
-                    if ok: worst = max(worst, err / tol)
+                    ok = bool(np.all(np.isfinite(e)) and np.all(np.abs(m - e) <= lim))
+                    tol = float(np.min(lim)) if m.size else tol
+                    if ok and tol > 0: worst = max(worst, err / tol)
             if ok:
                 nontriv = not all(c in '0,;/1 ' for c in ''.join(op.split(' ')[3:])) or op.split(' ')[1] in ('gm', 'all')
                 ctx.agree(op, op if nontriv else None)
@@ -180,10 +216,13 @@ def correspondence(ctx):
     tie.add('C16 gm 3 3 0', guarded(lambda: G.gellmann_matrix(3, 0, 3).reshape(-1)), 0, 'gm-assert')
     tie.add('C16 gm 3 0 3', guarded(lambda: G.gellmann_matrix(0, 3, 3).reshape(-1)), 0, 'gm-assert')
     # -- analysis / synthesis / dm helpers -----------------------------------
-    reps = 1 if ctx.quick() else 4
-    for d in dims:
-        for backend, dt in BACKENDS:
-            for shp in shapes(ctx, rng):
+    reps = 1 if ctx.quick() else 2
+    for hi, order in enumerate(HISTORIES):
+      G = fresh_gellmann()
+      for d in dims:
+        for backend, dt in order:
+            shp_all = shapes(ctx, rng)
+            for shp in ([shp_all[int(rng.integers(len(shp_all)))]] if ctx.quick() else shp_all):
                 for _ in range(reps):
                     n = int(np.prod(shp)) if shp else 1
                     # analysis
@@ -199,7 +238,7 @@ def correspondence(ctx):
                     scale = float(np.abs(Aex).max()) * d
                     for s in range(n):
                         tie.add(f'C16 ana {d} {qlist(Aex.reshape(-1, d, d)[s])}',
-                                r if isinstance(r, str) else r.reshape(-1, d * d)[s], tol_for(dt, scale), f'ana-{backend}-{dt}-b{len(shp)}')
+                                r if isinstance(r, str) else r.reshape(-1, d * d)[s], tol_for(dt, scale), f'ana-{backend}-{dt}-b{len(shp)}-h{hi}')
                     # synthesis (real coefficient dtypes and complex ones)
                     v = rand_gint(rng, shp + (d * d,))
                     if rng.random() < 0.15:
@@ -213,7 +252,7 @@ def correspondence(ctx):
                     scale = float(np.abs(vex).max()) * d * 2
                     for s in range(n):
                         tie.add(f'C16 syn {d} {qlist(vex.reshape(-1, d * d)[s])}',
-                                r if isinstance(r, str) else r.reshape(-1, d * d)[s], tol_for(dt, scale), f'syn-{backend}-{dt}-b{len(shp)}')
+                                r if isinstance(r, str) else r.reshape(-1, d * d)[s], tol_for(dt, scale), f'syn-{backend}-{dt}-b{len(shp)}-h{hi}')
                     # density-matrix helpers (complex dtypes; real dtypes give real symmetric matrices)
                     rho = rand_dm_exact(rng, d, shp)
                     x = convert(rho, backend, dt)
@@ -232,17 +271,34 @@ def correspondence(ctx):
                             tie.add(f'C16 vec2dm {d} {qlist(uex.reshape(n, -1)[s])}',
                                     r if isinstance(r, str) else r.reshape(n, -1)[s], tol_for(dt, 2.0), f'vec2dm-{backend}-{dt}-b{len(shp)}')
                     if backend == 'np' and dt == 'c128':
-                        r = guarded(lambda: np.asarray(G.dm_to_gellmann_norm(rho)) ** 2)
-                        for s in range(n):
-                            tie.add(f'C16 norm2 {d} {qlist(rho.reshape(-1, d, d)[s])}',
-                                    r if isinstance(r, str) else np.asarray(r).reshape(-1)[s:s + 1], tol_for(dt, 1.0), f'norm2-b{len(shp)}')
+                        # dm_to_gellmann_norm against the square root of the exact dmNorm2, RELATIVE tolerance; generic states and states
+                        # within eps of the maximally mixed one (and I/d itself)
+                        for eps in [None] + ([EPS_LIST[int(rng.integers(len(EPS_LIST)))]] if ctx.quick() else EPS_LIST):
+                            rr = rho if eps is None else near_mixed(rng, d, eps, shp)
+                            r = guarded(lambda: np.asarray(G.dm_to_gellmann_norm(rr)))
+                            for s in range(n):
+                                tie.add(f'C16 norm2 {d} {qlist(rr.reshape(-1, d, d)[s])}',
+                                        r if isinstance(r, str) else np.asarray(r).reshape(-1)[s:s + 1], NORM_ATOL, f'norm-b{len(shp)}-eps{eps}',
+                                        rtol=NORM_RTOL, post=lambda m: np.sqrt(np.maximum(m.real, 0)).astype(complex))
+                            if eps is not None:
+                                r = guarded(lambda: to_np(G.dm_to_gellmann_basis(rr)))
+                                for s in range(n):
+                                    tie.add(f'C16 dm2vec {d} 0 {qlist(rr.reshape(-1, d, d)[s])}',
+                                            r if isinstance(r, str) else r.reshape(n, -1)[s], NORM_ATOL, f'dm2vec-near-mixed-eps{eps}', rtol=NORM_RTOL)
+                                r2 = near_mixed(rng, d, eps if eps else 1e-9, ())
+                                r1 = rr.reshape(-1, d, d)[0]
+                                dd = guarded(lambda: np.asarray(G.get_density_matrix_distance2(r1, r2)).reshape(1))
+                                at = 1e-32 if isinstance(dd, str) else 2e-16 * math.sqrt(max(float(dd[0].real), 0.0)) + 1e-32
+                                tie.add(f'C16 dist2 {d} {qlist(r1)} {qlist(r2)}', dd, at, f'dist2-near-mixed-eps{eps}', rtol=NORM_RTOL)
                     if dt in ('c128', 'c64'):
                         sig = convert(rand_dm_exact(rng, d, ()), backend, dt)
                         rh0 = convert(rho.reshape(-1, d, d)[0], backend, dt)
                         r = guarded(lambda: np.asarray(to_np(G.get_density_matrix_distance2(rh0, sig))).reshape(1))
                         tie.add(f'C16 dist2 {d} {qlist(to_np(rh0))} {qlist(to_np(sig))}', r, tol_for(dt, 1.0), f'dist2-{backend}-{dt}')
     tie.run()
-    ctx.extra['tolerance'] = f'abs <= {TOL64}*scale for float64/complex128, {TOL32}*scale for float32/complex64 inputs (scale = max|input|*d)'
+    ctx.extra['tolerance'] = (f'abs <= {TOL64}*scale for float64/complex128, {TOL32}*scale for float32/complex64 inputs (scale = max|input|*d); '
+                              f'dm_to_gellmann_norm / distance2 / Bloch vectors near the maximally mixed state: relative {NORM_RTOL} + absolute {NORM_ATOL}')
+    ctx.extra['histories'] = [' -> '.join(f'{b}:{t}' for b, t in h) for h in HISTORIES]
     ctx.extra['exhaustive'] = False
 
 
@@ -256,7 +312,7 @@ def _close(a, b, tol):
 
 def probe(ctx):
     import numqi, torch
-    G = numqi.gellmann
+    G = fresh_gellmann()
     rng = np.random.default_rng(ctx.np_seed + 1)
     dims = list(range(2, 9))
     basis = {}
@@ -305,10 +361,13 @@ def probe(ctx):
             ctx.fail('tensor2-orthogonality', f'tensor_n=2, d={d}: Tr(G_{a} G_{b}) = {gram[a, b]:.15g}', dict(fn='all_gellmann_matrix', d=d, tensor_n=2, a=int(a), b=int(b)))
         else:
             ctx.probe_ok(('orth2', d))
-    reps = 2 if ctx.quick() else 10
-    for d in dims:
+    reps = 1 if ctx.quick() else 3
+    orders = HISTORIES[:2] if ctx.quick() else HISTORIES
+    for order in orders:
+      G = fresh_gellmann()      # fresh module state, then the calls in exactly this dtype order for every d
+      for d in dims:
         B = basis[d]
-        for backend, dt in BACKENDS:
+        for backend, dt in order:
             t64 = dt in ('c128', 'f64')
             tol = (1e-11 if t64 else 2e-4)
             for shp in shapes(ctx, rng):
@@ -383,6 +442,10 @@ def probe(ctx):
                     rho = numqi.random.rand_density_matrix(d, seed=int(rng.integers(1 << 30)))
                     n = int(np.prod(shp)) if shp else 1
                     rho = np.stack([numqi.random.rand_density_matrix(d, seed=int(rng.integers(1 << 30))) for _ in range(n)]).reshape(tuple(shp) + (d, d))
+                    eps = None
+                    if dt == 'c128' and rng.random() < 0.6:     # within eps of the maximally mixed state (eps = 0: I/d itself)
+                        eps = EPS_LIST[int(rng.integers(len(EPS_LIST)))]
+                        rho = near_mixed(rng, d, eps, shp).astype(complex)
                     x = convert(rho, backend, dt)
                     rex = to_np(x).astype(complex)
                     rep_in = dict(backend=backend, dtype=dt, d=d, shape=list(shp), dm=[[str(z) for z in row] for row in rex.reshape(-1, d)])
@@ -397,20 +460,26 @@ def probe(ctx):
                     vn = to_np(vec).astype(np.float64)
                     if backend == 'np':
                         nm = guarded(lambda: np.asarray(G.dm_to_gellmann_norm(x)))
-                        if isinstance(nm, str) or nm.shape != tuple(shp) or not _close(nm, np.linalg.norm(vn, axis=-1), tol):
-                            ctx.fail('dm-norm', f'dm_to_gellmann_norm(rho) != |dm_to_gellmann_basis(rho)| ({backend},{dt},d={d},batch={shp})', dict(fn='dm_to_gellmann_norm', **rep_in))
+                        ref = np.linalg.norm(vn, axis=-1)
+                        lim = (NORM_RTOL * ref + NORM_ATOL) if dt == 'c128' else tol
+                        if isinstance(nm, str) or nm.shape != tuple(shp) or not np.all(np.isfinite(nm)) or not np.all(np.abs(nm - ref) <= lim):
+                            ctx.fail('dm-norm', f'dm_to_gellmann_norm(rho) != |dm_to_gellmann_basis(rho)| ({backend},{dt},d={d},batch={shp},eps={eps}): '
+                                                f'{np.asarray(nm).reshape(-1)[:3] if not isinstance(nm, str) else nm} vs {ref.reshape(-1)[:3]} (relative {NORM_RTOL} + {NORM_ATOL})', dict(fn='dm_to_gellmann_norm', **rep_in))
                         else:
                             ctx.probe_ok(('dmnorm', d, dt, len(shp)))
                     r0 = x.reshape(-1, d, d)[0]
-                    s0 = convert(numqi.random.rand_density_matrix(d, seed=int(rng.integers(1 << 30))), backend, dt)
+                    s0 = convert(numqi.random.rand_density_matrix(d, seed=int(rng.integers(1 << 30))) if eps is None else near_mixed(rng, d, eps if eps else 1e-9, ()).astype(complex), backend, dt)
                     d2 = guarded(lambda: float(to_np(G.get_density_matrix_distance2(r0, s0))))
                     want = float(np.sum((to_np(G.dm_to_gellmann_basis(r0)).astype(float) - to_np(G.dm_to_gellmann_basis(s0)).astype(float)) ** 2))
-                    if isinstance(d2, str) or abs(d2 - want) > tol:
+                    lim2 = (NORM_RTOL * want + 2e-16 * math.sqrt(want) + 1e-32) if dt == 'c128' else tol
+                    if isinstance(d2, str) or not (abs(d2 - want) <= lim2):
                         ctx.fail('distance2', f'get_density_matrix_distance2 = {d2}, squared Bloch distance = {want} ({backend},{dt},d={d})',
                                  dict(fn='get_density_matrix_distance2', backend=backend, dtype=dt, d=d, rho=[str(z) for z in to_np(r0).reshape(-1)], sigma=[str(z) for z in to_np(s0).reshape(-1)]))
                     else:
                         ctx.probe_ok(('dist', d, backend, dt))
-    ctx.extra['probe_tolerance'] = 'float64: 1e-11*scale (basis identities 1e-12); float32: 2e-4*scale'
+    ctx.extra['probe_tolerance'] = (f'float64: 1e-11*scale (basis identities 1e-12); float32: 2e-4*scale; dm_to_gellmann_norm / distance2 in complex128: '
+                                    f'relative {NORM_RTOL} + absolute {NORM_ATOL} (norm) resp. 2e-16*sqrt(d2)+1e-32 (distance2), incl. states within 1e-3..1e-12 of I/d and I/d itself')
+    ctx.extra['probe_histories'] = [' -> '.join(f'{b}:{t}' for b, t in h) for h in orders]
 
 
 def search(ctx, hints):
